@@ -381,19 +381,22 @@ func (f *flow) Start(ctx context.Context) {
 						}
 						source := f.current.Element()
 
-						current := sequences[0]
 						effectiveFlows := make([]Snapshot, 0)
-
-						flowed := f.handleSequenceFlow(ctx, current, unconditional[0], a.actionTransformer, a.terminate)
-
-						if flowed {
-							effectiveFlows = append(effectiveFlows, Snapshot{sequenceFlow: current, flowId: f.Id()})
-						}
-
-						rest := sequences[1:]
 						flowHandlers := make([]func(ctx context.Context), 0)
-						for i, sequenceFlow := range rest {
-							flowId, flowHandler, flowed := f.handleAdditionalSequenceFlow(ctx, sequenceFlow, unconditional[i+1],
+
+						// The first sequence flow that is actually taken continues this flow,
+						// every further one forks a new flow. (If the first listed flow's
+						// condition is false, this flow must not stay behind at the source.)
+						continued := false
+						for i, sequenceFlow := range sequences {
+							if !continued {
+								if f.handleSequenceFlow(ctx, sequenceFlow, unconditional[i], a.actionTransformer, a.terminate) {
+									continued = true
+									effectiveFlows = append(effectiveFlows, Snapshot{sequenceFlow: sequenceFlow, flowId: f.Id()})
+								}
+								continue
+							}
+							flowId, flowHandler, flowed := f.handleAdditionalSequenceFlow(ctx, sequenceFlow, unconditional[i],
 								a.actionTransformer, a.terminate)
 							if flowed {
 								effectiveFlows = append(effectiveFlows, Snapshot{sequenceFlow: sequenceFlow, flowId: flowId})
